@@ -9,6 +9,7 @@ use digest::Update;
 use digest::XofReader;
 use digest::core_api::XofReaderCoreWrapper;
 use log::trace;
+use log::warn;
 use sha3::Shake128;
 use sha3::Shake128ReaderCore;
 use tokio_util::bytes::Buf;
@@ -27,6 +28,7 @@ use crate::protocol::vmess::session::Session;
 use crate::util::dice;
 
 const AUTH_LEN: &[u8] = b"auth_len";
+const MAX_PADDING_LENGTH: usize = 63;
 
 pub struct AEADBodyCodec {
     auth: Authenticator,
@@ -113,6 +115,11 @@ impl AEADBodyCodec {
     }
 
     pub fn encode_packet(&mut self, mut src: BytesMut, dst: &mut BytesMut, session: &mut dyn Session) -> Result<(), aead::Error> {
+        // a datagram travels in exactly one chunk: one that cannot fit (with the largest padding) is dropped, never truncated
+        if src.remaining() > self.payload_limit - self.auth.cipher.tag_size() - self.chunk.size_bytes() - MAX_PADDING_LENGTH {
+            warn!("Drop oversized datagram; length={}", src.remaining());
+            return Ok(());
+        }
         self.encode_chunk(&mut src, dst, session)
     }
 
